@@ -476,15 +476,17 @@ Theorem C01_sem_body_expression : forall L e, lpure L e = true -> forall fuel en
 Proof. exact eval_lpure. Qed.
 Print Assumptions C01_sem_body_expression.
 
-(* a call nm(e) of a user function (not a built-in name): the argument, CALL, the body's code inside the
-   new frame, RET of the body's operand — in every position (C01_statement_compiled has it as a case) *)
-Theorem C01_user_call_compiled : forall Bf nm e d s s' w,
-  bop_of_name nm = None -> pure e = true -> wfcs s ->
-  Compile.comp (NCall (NName nm) [e]) 0 (tfl d) s = COk (w, s') ->
-  SpecS Bf (NCall (NName nm) [e]) d 0 s s' w.
+(* a call nm(e1, .., ek) with pure arguments, whatever the callee — a built-in, read(), a user function of
+   the table with any number of parameters: the arguments left to right, CALL, the body's code inside the
+   new frame, RET of the body's operand; a wrong number of arguments is the arity error, raised by CALL
+   after the arguments were evaluated — in every position (C01_statement_compiled has it as a case) *)
+Theorem C01_user_call_compiled : forall Bf nm args d s s' w,
+  forallb pure args = true -> wfcs s ->
+  Compile.comp (NCall (NName nm) args) 0 (tfl d) s = COk (w, s') ->
+  SpecS Bf (NCall (NName nm) args) d 0 s s' w.
 Proof.
-  intros Bf nm e d s s' w Hb Hp Hwf H.
-  apply (ucall_specS Bf nm e (tfl d) d 0 s s' w Hb Hp ltac:(lia) Hwf eq_refl H).
+  intros Bf nm args d s s' w Hp Hwf H.
+  apply (call_specS Bf nm args (tfl d) d 0 s s' w Hp ltac:(lia) Hwf eq_refl H).
 Qed.
 Print Assumptions C01_user_call_compiled.
 
@@ -562,7 +564,11 @@ Definition demo_ucalls : list node :=
    NCall (NName "mad") [NInt 2; NName "y"; NList [NInt 5; NInt 6]];
    NAssign (NName "z") (NCall (NName "k") []);
    NCall (NName "mad") [NName "z"; NBin "/" (NInt 1) (NInt 0); NList []];
-   NCall (NName "mad") [NInt 1; NInt 1; NList []]].
+   NCall (NName "mad") [NInt 1; NInt 1; NList []];
+   NCall (NName "sq") [NInt 1; NInt 2];
+   NAssign (NName "z") (NCall (NName "mad") [NInt 1]);
+   NCall (NName "k") [NBin "/" (NInt 1) (NInt 0)];
+   NName "z"].
 
 Example C01_demo_user_calls_are_covered :
   Forall (fun t => wstmt t = true /\ CompileWf.wfb t = true /\ nobs user_bf t = true) demo_ucalls /\
@@ -571,7 +577,8 @@ Example C01_demo_user_calls_are_covered :
   [Some (Ok (VInt 49)); Some (Ok (VInt 9)); Some (Ok (VInt 0)); Some (Ok (VInt 3));
    Some (Ok (VArr [VBool false; VInt (-9)])); Some (Ok (VArr [VBool true; VInt (-11)])); Some (Fail ErrType);
    Some (Ok (VInt 100)); Some (Ok (VArr [VBool false; VInt (-11)])); Some (Ok (VInt 81));
-   Some (Ok (VInt 23)); Some (Ok (VInt 101)); Some (Fail ErrZeroDiv); Some (Fail ErrIndex)] /\
+   Some (Ok (VInt 23)); Some (Ok (VInt 101)); Some (Fail ErrZeroDiv); Some (Fail ErrIndex);
+   Some (Fail ErrArity); Some (Fail ErrArity); Some (Fail ErrZeroDiv); Some (Ok (VInt 101))] /\
   firstn 3 (v_out (mc_vm (end_of mc_defs demo_ucalls))) = ["4"; "1"; "0"]%string.
 Proof.
   split; [unfold demo_ucalls; repeat constructor|]. split.
